@@ -27,9 +27,15 @@ accept = Fn(F, [SRV, "accept"], ret="r", extra_params=TO,
     ],
     rules=[
         AppendArg("B71", r"self\.os_server\.accept\(", OG, "platform accept (unit U9) with the `?` conversion folded in", min_count=1),
-        Rule("D29", r"(\w+)\.into_iter\(\)\.map\(Some\)\.collect\(\)", r"wrap_some(\1)", "iterator adapter chain -> stub stating exactly the element-wise wrap"),
+        Rule("D29", r"(\w+)\s*\.into_iter\(\)\s*\.map\(Some\)\s*\.collect\(\)", r"wrap_some(\1)", "iterator adapter chain -> stub stating exactly the element-wise wrap"),
         AppendArg("B72", r"\.to\(", OG, "OpaqueIpcMessage::to (unit U7) as a stub that records what was decoded", min_count=1),
     ],
+    safety_props=["C08"])
+
+msg_new = Fn(F, ["impl OpaqueIpcMessage", "new"], ret="r",
+    ensures=[Clause("ipc.OpaqueIpcMessage.new/ensures.same_bytes_same_attachments_in_order",
+                    "r.data@ == data@ && r.os_ipc_channels@ == os_ipc_channels@ && r.os_ipc_shared_memory_regions@ == wrapped(os_ipc_shared_memory_regions@)", ["C08", "C04", "C05"])],
+    rules=[Rule("D29", r"(\w+)\s*\.into_iter\(\)\s*\.map\(Some\)\s*\.collect\(\)", r"wrap_some(\1)", "iterator adapter chain -> stub stating exactly the element-wise wrap")],
     safety_props=["C08"])
 
 connect = Fn(F, [SND, "connect"], ret="r", extra_params=TO,
@@ -41,11 +47,39 @@ connect = Fn(F, [SND, "connect"], ret="r", extra_params=TO,
     rules=[AppendArg("B73", r"OsIpcSender::connect\(", OG, "platform connect (unit U9) with the `?` conversion folded in", min_count=1)],
     safety_props=["C08"])
 
+RCV = "impl<T> IpcReceiver<T> where T: for<'de> Deserialize<'de> + Serialize,"
+ETA = [
+    Rule("D31", r"\.map_err\(IpcError::Bincode\)", ".map_err(|e: bincode::Error| -> (x: IpcError) ensures x == IpcError::Bincode(e) { IpcError::Bincode(e) })",
+         "eta-expansion of a datatype constructor used as a function value"),
+    Rule("D31", r"\.map_err\(TryRecvError::IpcError\)", ".map_err(|e: IpcError| -> (x: TryRecvError) ensures x == TryRecvError::IpcError(e) { TryRecvError::IpcError(e) })",
+         "eta-expansion of a datatype constructor used as a function value"),
+    AppendArg("B72", r"\.to\(", OG, "OpaqueIpcMessage::to (unit U7) as a stub that records what was decoded", min_count=1),
+]
+def recv_fn(name, kind, err_wrap, props):
+    return Fn(F, [RCV, name], ret="r", extra_params=TO,
+        ensures=[
+            Clause("ipc.IpcReceiver.%s/ensures.one_platform_receive_of_this_kind_on_this_receiver" % name,
+                   "final(o).recvs == old(o).recvs.push((self.os_receiver.rid, %s))" % kind, props),
+            Clause("ipc.IpcReceiver.%s/ensures.value_is_decoded_from_exactly_what_was_received" % name,
+                   "r matches Ok(v) ==> final(o).got is Some && final(o).decodes == old(o).decodes + 1\n"
+                   "&& value_src(v) == ((final(o).got->0).0, (final(o).got->0).1, wrapped((final(o).got->0).2))", ["C01", "C04", "C05"] + props),
+            Clause("ipc.IpcReceiver.%s/ensures.error_is_the_platforms_or_a_decode_error" % name,
+                   "r matches Err(e) ==> (final(o).failed == old(o).failed + 1 && final(o).decodes == old(o).decodes && %s)\n"
+                   "|| (final(o).failed == old(o).failed && final(o).decodes == old(o).decodes + 1 && %s)" % (err_wrap[0], err_wrap[1]), props),
+            Clause("ipc.IpcReceiver.%s/ensures.frame" % name, "same_oneshot(*old(o), *final(o))"),
+        ],
+        rules=[AppendArg("B74", r"self\.os_receiver\.%s\(" % name, OG, "platform receive (units U3/K4) with the `?` conversion (unit U4b) folded in", min_count=1)] + ETA,
+        safety_props=props)
+ipc_recv = recv_fn("recv", "RecvKind::Blocking", ("final(o).last_ipc_err == Some(e)", "e is Bincode"), ["C01", "C03"])
+ipc_try_recv = recv_fn("try_recv", "RecvKind::Nonblocking", ("final(o).last_try_err == Some(e)", "e matches TryRecvError::IpcError(IpcError::Bincode(_))"), ["C10", "C03"])
+ipc_try_recv_timeout = recv_fn("try_recv_timeout", "RecvKind::Timeout(duration)", ("final(o).last_try_err == Some(e)", "e matches TryRecvError::IpcError(IpcError::Bincode(_))"), ["C10", "C03"])
+
 UNIT = Unit(
     name="u10_oneshot",
     prelude=["units/common.rs", "units/u10_oneshot.rs"],
-    groups=[("impl<T> IpcOneShotServer<T>", [server_new, accept]), ("impl<T> IpcSender<T>", [connect])],
-    props=["C08"],
+    groups=[("impl OpaqueIpcMessage", [msg_new]), ("impl<T> IpcOneShotServer<T>", [server_new, accept]), ("impl<T> IpcSender<T>", [connect]),
+            ("impl<T> IpcReceiver<T>", [ipc_recv, ipc_try_recv, ipc_try_recv_timeout])],
+    props=["C08", "C01", "C03", "C04", "C05", "C10"],
     kernel_clauses=[
         "the platform one-shot server, accept and connect behave as specified in unit U9; OpaqueIpcMessage::to as in unit U7",
         "`?`'s From<UnixError> conversions (unit U4b for the error kinds) are folded into the platform stubs",
